@@ -59,7 +59,19 @@ Proof.
   split; [apply N.leb_le; exact H1|].
   unfold ExtModel.sat_op_count, ole_n in *.
   destruct (ExtModel.sat_data (ExtModel.ext_of (lx_ctx Legacy unc) m)) as [d|]; cbn [option_map] in *; [|discriminate].
-  exists d. split; [reflexivity|]. split; apply N.leb_le; assumption.
+  exists d. split; [reflexivity|]. split; [apply N.leb_le; assumption|].
+  apply N.leb_le in H3. lia.
+Qed.
+(* since /repo e37a8a3d the verdict bounds the WHOLE scriptSig: satisfaction items + push of the redeem script *)
+Lemma wrl_legacy_inv_scriptsig unc m : within_resource_limits Legacy unc m = true ->
+  let x := ExtModel.ext_of (lx_ctx Legacy unc) m in
+  exists d, ExtModel.sat_data x = Some d /\ ExtModel.sd_ssig d + ExtModel.pk_cost x + ExtModel.push_opcode_size (ExtModel.pk_cost x) <= 1650.
+Proof.
+  unfold within_resource_limits. cbv zeta. intros H.
+  apply andb_prop in H. destruct H as [_ H3].
+  unfold ole_n in H3.
+  destruct (ExtModel.sat_data (ExtModel.ext_of (lx_ctx Legacy unc) m)) as [d|]; cbn [option_map] in *; [|discriminate].
+  exists d. split; [reflexivity|]. apply N.leb_le. exact H3.
 Qed.
 Lemma wrl_bare_inv unc m : within_resource_limits Bare unc m = true ->
   let x := ExtModel.ext_of (lx_ctx Bare unc) m in
